@@ -1,14 +1,17 @@
 //go:build verif
 
 // Contracts for package messagesfactory, read by /verif/govc (comment-only: no declarations, no effect on any build).
-// Marked `trusted` while their bodies (membuffers builders) are verified separately under C20: a message the factory
-// builds carries exactly the requested fields, this node's id, and a signature that verifies under this node's key
-// (A-KM-SIGN: what SignConsensusMessage produces, VerifyConsensusMessage accepts for the same height and bytes).
+// A message the factory builds carries exactly the requested fields, this node's id, and a signature over the bytes of
+// the header it carries, which verifies under this node's key (A-KM-SIGN: what SignConsensusMessage produces for the id
+// the key manager signs as, VerifyConsensusMessage accepts for the same height and bytes). The bodies are verified
+// against the membuffers builder round-trip contracts (A-MB-RT, /verif/specs/base.spec); these functions serve C20 and
+// are the producer contracts the protocol code (C07-C10) relies on.
 
 package messagesfactory
 
 //@ func (*MessageFactory).CreateCommitMessage
-//@   trusted
+//@   props C20
+//@   requires [A-KM-SIGN] SignsAs(f.keyManager, f.memberId)
 //@   ensures result != nil && result.content != nil
 //@   ensures result.content.SignedHeader().MessageType() == protocol.LEAN_HELIX_COMMIT && result.content.SignedHeader().InstanceId() == f.instanceId
 //@   ensures result.content.SignedHeader().BlockHeight() == blockHeight && result.content.SignedHeader().View() == view && result.content.SignedHeader().BlockHash() == blockHash
@@ -16,7 +19,8 @@ package messagesfactory
 //@   ensures VerifiedMsg(f.keyManager, blockHeight, result.content.SignedHeader().Raw(), f.memberId, result.content.Sender().Signature())
 
 //@ func (*MessageFactory).CreatePrepareMessage
-//@   trusted
+//@   props C20
+//@   requires [A-KM-SIGN] SignsAs(f.keyManager, f.memberId)
 //@   ensures result != nil && result.content != nil
 //@   ensures result.content.SignedHeader().MessageType() == protocol.LEAN_HELIX_PREPARE && result.content.SignedHeader().InstanceId() == f.instanceId
 //@   ensures result.content.SignedHeader().BlockHeight() == blockHeight && result.content.SignedHeader().View() == view && result.content.SignedHeader().BlockHash() == blockHash
@@ -30,7 +34,8 @@ package messagesfactory
 //@   | && content(hdr.Raw()) == BlockRefBytes(b.MessageType, b.InstanceId, b.BlockHeight, b.View, content(b.BlockHash))
 
 //@ func (*MessageFactory).CreatePreprepareMessageContentBuilder
-//@   trusted
+//@   props C20
+//@   requires [A-KM-SIGN] SignsAs(f.keyManager, f.memberId)
 //@   ensures result != nil && result.SignedHeader != nil && result.Sender != nil
 //@   ensures result.SignedHeader.MessageType == protocol.LEAN_HELIX_PREPREPARE && result.SignedHeader.InstanceId == f.instanceId
 //@   ensures result.SignedHeader.BlockHeight == blockHeight && result.SignedHeader.View == view && result.SignedHeader.BlockHash == blockHash
@@ -38,14 +43,15 @@ package messagesfactory
 //@   ensures VerifiedMsg(f.keyManager, blockHeight, BlockRefBytes(protocol.LEAN_HELIX_PREPREPARE, f.instanceId, blockHeight, view, content(blockHash)), f.memberId, result.Sender.Signature)
 
 //@ func (*MessageFactory).CreatePreprepareMessageFromContentBuilder
-//@   trusted
+//@   props C20
 //@   requires ppmc != nil && ppmc.SignedHeader != nil && ppmc.Sender != nil
 //@   ensures result != nil && result.content != nil && result.block == block
 //@   ensures HdrIs(result.content.SignedHeader(), ppmc.SignedHeader)
 //@   ensures result.content.Sender().MemberId() == ppmc.Sender.MemberId && result.content.Sender().Signature() == ppmc.Sender.Signature
 
 //@ func (*MessageFactory).CreatePreprepareMessage
-//@   trusted
+//@   props C20
+//@   requires [A-KM-SIGN] SignsAs(f.keyManager, f.memberId)
 //@   ensures result != nil && result.content != nil && result.block == block
 //@   ensures result.content.SignedHeader().MessageType() == protocol.LEAN_HELIX_PREPREPARE && result.content.SignedHeader().InstanceId() == f.instanceId
 //@   ensures result.content.SignedHeader().BlockHeight() == blockHeight && result.content.SignedHeader().View() == view && result.content.SignedHeader().BlockHash() == blockHash
@@ -53,13 +59,53 @@ package messagesfactory
 //@   ensures VerifiedMsg(f.keyManager, blockHeight, result.content.SignedHeader().Raw(), f.memberId, result.content.Sender().Signature())
 
 //@ func (*MessageFactory).CreateNewViewMessage
-//@   trusted
+//@   props C20
+//@   requires [A-KM-SIGN] SignsAs(f.keyManager, f.memberId)
 //@   ensures result != nil && result.content != nil && result.block == block
 //@   ensures result.content.SignedHeader().MessageType() == protocol.LEAN_HELIX_NEW_VIEW && result.content.SignedHeader().BlockHeight() == blockHeight && result.content.SignedHeader().View() == view
 //@   ensures result.content.Sender().MemberId() == f.memberId
 
+// the prepared proof a vote carries is a field-by-field copy of the prepared certificate: the proposal's signed fields and
+// sender under type PREPREPARE, the first PREPARE's signed fields under type PREPARE, one sender entry per PREPARE in order.
+// A certificate has at least one PREPARE (precondition: prepareMessages[0] is read).
+//@ pred CertOK(pms *preparedmessages.PreparedMessages) = pms != nil ==> (pms.PreprepareMessage != nil ==> pms.PreprepareMessage.content != nil)
+//@   | && (!isnil(pms.PrepareMessages) ==> len(pms.PrepareMessages) >= 1)
+//@   | && (forall i int :: 0 <= i && i < len(pms.PrepareMessages) ==> pms.PrepareMessages[i] != nil && pms.PrepareMessages[i].content != nil)
+//@ func CreatePreparedProofBuilderFromPreparedMessages
+//@   props C20 C12
+//@   requires [a-prepared-certificate-has-at-least-one-prepare] CertOK(preparedMessages)
+//@   ensures [nil-iff-no-certificate] (result == nil) == (preparedMessages == nil)
+//@   ensures [proposal] preparedMessages != nil && preparedMessages.PreprepareMessage != nil ==> result.PreprepareBlockRef != nil && result.PreprepareSender != nil
+//@     | && result.PreprepareBlockRef.MessageType == protocol.LEAN_HELIX_PREPREPARE && result.PreprepareBlockRef.InstanceId == preparedMessages.PreprepareMessage.content.SignedHeader().InstanceId()
+//@     | && result.PreprepareBlockRef.BlockHeight == preparedMessages.PreprepareMessage.content.SignedHeader().BlockHeight() && result.PreprepareBlockRef.View == preparedMessages.PreprepareMessage.content.SignedHeader().View()
+//@     | && result.PreprepareBlockRef.BlockHash == preparedMessages.PreprepareMessage.content.SignedHeader().BlockHash()
+//@     | && result.PreprepareSender.MemberId == preparedMessages.PreprepareMessage.content.Sender().MemberId() && result.PreprepareSender.Signature == preparedMessages.PreprepareMessage.content.Sender().Signature()
+//@   ensures [prepares.ref] preparedMessages != nil && !isnil(preparedMessages.PrepareMessages) ==> result.PrepareBlockRef != nil
+//@     | && result.PrepareBlockRef.MessageType == protocol.LEAN_HELIX_PREPARE && result.PrepareBlockRef.InstanceId == preparedMessages.PrepareMessages[0].content.SignedHeader().InstanceId()
+//@     | && result.PrepareBlockRef.BlockHeight == preparedMessages.PrepareMessages[0].content.SignedHeader().BlockHeight() && result.PrepareBlockRef.View == preparedMessages.PrepareMessages[0].content.SignedHeader().View()
+//@     | && result.PrepareBlockRef.BlockHash == preparedMessages.PrepareMessages[0].content.SignedHeader().BlockHash()
+//@   ensures [prepares.senders] preparedMessages != nil && !isnil(preparedMessages.PrepareMessages) ==> len(result.PrepareSenders) == len(preparedMessages.PrepareMessages)
+//@     | && (forall j int :: 0 <= j && j < len(preparedMessages.PrepareMessages) ==> result.PrepareSenders[j] != nil && result.PrepareSenders[j].MemberId == preparedMessages.PrepareMessages[j].content.Sender().MemberId()
+//@     |    && result.PrepareSenders[j].Signature == preparedMessages.PrepareMessages[j].content.Sender().Signature())
+//@   loop range prepareMessages
+//@     invariant [so-far] len(pSenders) == $i && (forall j int :: 0 <= j && j < $i ==> pSenders[j] != nil && alive[pSenders[j]] && pSenders[j].MemberId == prepareMessages[j].content.Sender().MemberId() && pSenders[j].Signature == prepareMessages[j].content.Sender().Signature())
+//@     invariant [refs] pBlockRef != nil && alive[pBlockRef] && (ppBlockRef != nil ==> alive[ppBlockRef])
+//@     invariant [proposal-sender-kept] preprepareMessage != nil ==> ppSender != nil && alive[ppSender] && ppSender.MemberId == preprepareMessage.content.Sender().MemberId() && ppSender.Signature == preprepareMessage.content.Sender().Signature()
+
+//@ func (*MessageFactory).CreateViewChangeMessageContentBuilder
+//@   props C20
+//@   requires [A-KM-SIGN] SignsAs(f.keyManager, f.memberId)
+//@   requires [a-prepared-certificate-has-at-least-one-prepare] CertOK(preparedMessages)
+//@   ensures result != nil && result.SignedHeader != nil && result.Sender != nil
+//@   ensures result.SignedHeader.MessageType == protocol.LEAN_HELIX_VIEW_CHANGE && result.SignedHeader.InstanceId == f.instanceId && result.SignedHeader.BlockHeight == blockHeight && result.SignedHeader.View == view
+//@   ensures (result.SignedHeader.PreparedProof == nil) == (preparedMessages == nil)
+//@   ensures result.Sender.MemberId == f.memberId
+//@   ensures [signed-bytes-are-the-header-bytes] VerifiedMsg(f.keyManager, blockHeight, VCHeaderBytes(protocol.LEAN_HELIX_VIEW_CHANGE, f.instanceId, blockHeight, view, result.SignedHeader.PreparedProof), f.memberId, result.Sender.Signature)
+
 //@ func (*MessageFactory).CreateViewChangeMessage
-//@   trusted
+//@   props C20
+//@   requires [A-KM-SIGN] SignsAs(f.keyManager, f.memberId)
+//@   requires [a-prepared-certificate-has-at-least-one-prepare] CertOK(preparedMessages)
 //@   ensures result != nil && result.content != nil
 //@   ensures result.content.SignedHeader().MessageType() == protocol.LEAN_HELIX_VIEW_CHANGE && result.content.SignedHeader().InstanceId() == f.instanceId
 //@   ensures result.content.SignedHeader().BlockHeight() == blockHeight && result.content.SignedHeader().View() == view
